@@ -94,6 +94,9 @@ type Factory struct {
 	// definitional facts of auxiliary variables (emitted whenever the variable occurs in a query)
 	Defs     map[*Term][]*Term
 	defCache map[string][]*Term
+	// ModQ: concrete evaluation of ring-layer specifications over a prime field (counterexample replay): integer
+	// constants are residues modulo ModQ, so that equalities, the zero test and inverses are those of the field
+	ModQ *big.Int
 }
 
 // AddDef attaches a defining fact to an auxiliary variable.
@@ -162,7 +165,12 @@ func termLess(a, b *Term) bool {
 	return a.id < b.id
 }
 
-func (f *Factory) Int(k *big.Int) *Term { return f.intern(&Term{Op: OConst, K: new(big.Int).Set(k), S: SInt}) }
+func (f *Factory) Int(k *big.Int) *Term {
+	if f.ModQ != nil {
+		return f.intern(&Term{Op: OConst, K: new(big.Int).Mod(k, f.ModQ), S: SInt})
+	}
+	return f.intern(&Term{Op: OConst, K: new(big.Int).Set(k), S: SInt})
+}
 func (f *Factory) I64(k int64) *Term    { return f.Int(big.NewInt(k)) }
 func (f *Factory) True() *Term          { return f.intern(&Term{Op: OTrue, S: SBool}) }
 func (f *Factory) False() *Term         { return f.intern(&Term{Op: OFalse, S: SBool}) }
